@@ -145,8 +145,44 @@ func c16r1(c *Ctx) {
 		everyPath := func(st ssa.Instruction, what string) {
 			construct := sp.Name + ": SetNewGasConfig updates " + what + " on every path"
 			barriers := map[ssa.Instruction]bool{st: true}
+			// a return that skips the copy because the field already holds the new schedule's value is the copy's no-op: edges
+			// that establish `field == value to be copied` cut like the nil-schedule edges do
+			skip := map[edge]bool{}
+			for ed := range nilSched {
+				skip[ed] = true
+			}
+			ft := "*P:" + paramName(set.Params[0]) + what
+			vt := ""
+			if cs, ok := st.(*ssa.Store); ok {
+				vt = se.Term(cs.Val)
+			}
+			if vt != "" {
+				for ed, fs := range se.EdgeFacts() {
+					ge, le := false, false
+					for _, fct := range fs {
+						k := fct.Key()
+						if !strings.Contains(k, ft) || !strings.Contains(k, vt) {
+							continue
+						}
+						if !fct.Lin && fct.Pos && (strings.HasPrefix(fct.Atom, "eq(") || strings.HasPrefix(fct.Atom, "zero(")) {
+							skip[ed] = true
+						}
+						if fct.Lin && len(fct.LE.c) == 2 && fct.LE.k == 0 {
+							if fct.LE.c[ft] == 1 && fct.LE.c[vt] == -1 {
+								ge = true
+							}
+							if fct.LE.c[ft] == -1 && fct.LE.c[vt] == 1 {
+								le = true
+							}
+						}
+					}
+					if ge && le {
+						skip[ed] = true
+					}
+				}
+			}
 			for _, r := range returnsOf(set) {
-				if len(set.Blocks[0].Instrs) > 0 && (set.Blocks[0].Instrs[0] == ssa.Instruction(r) || reachesAvoiding(set, set.Blocks[0].Instrs[0], r, barriers, nilSched)) {
+				if len(set.Blocks[0].Instrs) > 0 && (set.Blocks[0].Instrs[0] == ssa.Instruction(r) || reachesAvoiding(set, set.Blocks[0].Instrs[0], r, barriers, skip)) {
 					c.FailX(Oblig{Rule: rule, Func: FuncName(set), Construct: construct, Pos: c.P.InstrPos(st), Kind: "violation",
 						Detail:   "SetNewGasConfig can return at " + c.P.InstrPos(r) + " with a non-nil schedule without having copied " + what + ": after such a change " + sp.Name + " keeps charging a stale price",
 						Expected: "the copy on every path on which the schedule is not nil"})
